@@ -614,6 +614,12 @@ func dapiRandFactory(rng *Rng) []dapiFacEntry {
 					e.bt = []byte{0x00, 0x02, 0x84, 0x86, 0x01, 0x83, 0x0D, 0x8F, 0x8E, 0x8C}[rng.Intn(10)]
 				}
 				e.flags = []string{"-", "a", "b", "ab", "c", "ac"}[rng.Intn(6)]
+				if e.bt == 0x88 || e.bt == 0x89 { // accumulating float fields: uint32(float) is platform-defined out of range
+					e.flags = strings.ReplaceAll(e.flags, "c", "")
+					if e.flags == "" {
+						e.flags = "-"
+					}
+				}
 			}
 			es = append(es, e)
 		}
@@ -1006,7 +1012,12 @@ func genDecApi(emit func(string), tier string, rng *Rng) {
 					if fnum != 200 {
 						fac = dapiFacString(dapiPool)
 						if rng.Intn(3) == 0 { // known field whose profile base type is the surgery byte
-							fac = fmt.Sprintf("20.%d.%02x.%s", fnum, []int{bt, 0x84, 0x07}[rng.Intn(3)], []string{"-", "a", "b", "ac"}[rng.Intn(4)])
+							kbt := []int{bt, 0x84, 0x07}[rng.Intn(3)]
+							fl := []string{"-", "a", "b", "ac"}[rng.Intn(4)]
+							if (kbt == 0x88 || kbt == 0x89) && fl == "ac" { // no accumulating float fields (see dapiRandFactory)
+								fl = "a"
+							}
+							fac = fmt.Sprintf("20.%d.%02x.%s", fnum, kbt, fl)
 						}
 					}
 					emit(dapiLine("decapi", dapiOptString(rng), fac, []string{"dec", "pki,dec", "nxt,dec,nxt"}[rng.Intn(3)], [][]byte{seq}))
